@@ -97,6 +97,9 @@ func TestDevFP(t *testing.T) {
 				keys += " " + v.Key
 			}
 			fmt.Printf("FP %s %d %s %s nt=%v%s\n", c.ID(), i, sim.FP(sc), out.HistoryFP, out.Nontrivial, keys)
+			if os.Getenv("X_DUMP") == fmt.Sprintf("%s-%d", c.ID(), i) {
+				fmt.Printf("DUMP %s\n", raw)
+			}
 			i++
 		})
 	}
